@@ -213,14 +213,16 @@ def inproc(ctx):
         return "None" if v is None else "Some " + (f % v)
     sizes_term = "[%s]" % "; ".join("(%d, %d)" % (256 * i, z) for i, z in enumerate(mch.SIZES))
     def sel2_term(c, z=None):
-        tg = "; ".join("(%d, {| sf := %s; sd := %s; stm := %s; ssz := %s; str := %s; sc := %s |})" % (
+        tg = "; ".join("(%d, {| sf := %s; sd := %s; stm := %s; ssz := %s; str := %s; sc := %s; sl := %s |})" % (
             256 * k, "None" if t.get("filter") is None else "Some " + coq.coq_bool(t["filter"]),
             opt(t.get("depth")), opt(t.get("time")), opt(t.get("size")), coq.coq_bool(t.get("trace")),
-            coq.coq_bool(t.get("caller"))) for k, t in sorted(c["cfg"]["trig"].items()))
-        return "%s [%s] %s %s %s %d %d %s%s %s" % (
+            coq.coq_bool(t.get("caller")), "None" if t.get("loc") is None else "Some " + coq.coq_bool(t["loc"]))
+            for k, t in sorted(c["cfg"]["trig"].items()))
+        return "%s [%s] %s %s %s %s %d %d %s%s %s" % (
             "ok_sel2" if z is None else "ok_sel2z", tg, sizes_term,
             coq.coq_bool(any(t.get("filter") is True for t in c["cfg"]["trig"].values())),
             coq.coq_bool(any(t.get("caller") for t in c["cfg"]["trig"].values())),
+            coq.coq_bool(any(t.get("loc") is True for t in c["cfg"]["trig"].values())),
             c["cfg"].get("depth") if c["cfg"].get("depth") is not None else 1024, c["cfg"].get("threshold") or 0,
             "" if z is None else "%d " % z, F.coq_forest(c["forest"]), mcgen.coq_recs(c["res"]["recs"]))
     sel2_terms = [sel2_term(c) for c in sel2cases]
@@ -337,14 +339,19 @@ def e2e(ctx, objdir):
     uft = os.path.join(objdir, "uftrace")
     work = os.path.join(ctx.scratch, "e2e")
     os.makedirs(work, exist_ok=True)
-    for pi in range(ctx.n(3, 16)):
+    for pi in range(ctx.n(6, 24)):
         fo_main = F.gen_shape(rng, 6, rng.choice([6, 12, 25]), 6)
-        src, names = c02.c_program(fo_main, [])
+        # source locations for -L: every function class lies in "file" locA.c or locB.c, main in locmain.c
+        locbit = rng.randrange(2)
+
+        def loc_of(k):
+            return "AB"[(k + locbit) % 2]
+        src, names = c02.c_program(fo_main, [], loc_of=loc_of)
         cfile = os.path.join(work, "q%d.c" % pi)
         open(cfile, "w").write(src)
         method, cflags, rflags = rng.choice(c02.METHODS[:3])
         exe = os.path.join(work, "q%d" % pi)
-        rc, o, e = sh(["gcc", "-O1", "-o", exe, cfile, "-pthread"] + cflags, timeout=120)
+        rc, o, e = sh(["gcc", "-O1", "-g", "-o", exe, cfile, "-pthread"] + cflags, timeout=120)
         if rc != 0:
             ctx.broken("e2e program does not compile", e[-400:])
             continue
@@ -373,6 +380,14 @@ def e2e(ctx, objdir):
             k = rng.choice(others)
             trig[k] = {"caller": True}
             opts += rng.choice([["-C", "_f%d$" % k], ["-T", "_f%d$@caller" % k]])
+        # location filter: show only locA.c / hide locA.c (-L locA.c[@hide]); main (locmain.c) is outside every named location
+        in_a = [k for k in present if loc_of(k) == "A"]
+        lmode = None
+        if in_a and rng.random() < 0.5:
+            lmode = rng.choice(["show", "hide"])
+            for k in in_a:
+                trig.setdefault(k, {})["loc"] = (lmode == "show")
+            opts += ["-L", "locA.c" + ("@hide" if lmode == "hide" else "")]
         cfg = {"shape": "cyg" if method == "cyg" else "pg", "trig": trig}
         if rng.random() < 0.5:
             cfg["depth"] = rng.choice([1, 2, 3, 4])
@@ -404,7 +419,8 @@ def e2e(ctx, objdir):
             ("model", "let '(a, b) := c in map (fun r : rec => (type_code (r_type r), r_depth r, r_addr r)) "
                       "(out (fst (exec a b (init, []))))"),
             ("leaky", "let '(a, b) := c in leaky a b")])
-        ctx.case(key=("e2e", method, tuple(opts), src), tags=["e2e:" + method, "e2e:opts=%d" % len(opts)], size=len(evs))
+        ctx.case(key=("e2e", method, tuple(opts), src), tags=["e2e:" + method, "e2e:opts=%d" % len(opts),
+                                                             "e2e:-L=" + str(lmode)], size=len(evs))
         if r is None:
             continue
         import re
@@ -430,10 +446,12 @@ def meta(ctx):
     ctx.assume = [
         "pattern matching itself (regexec/fnmatch) and the option -> trigger-table translation (utils/filter.c) are "
         "exercised by the tie but not modelled; one trigger spec per function",
-        "source-location filters (-L), finish, recover, argument capture and events are outside this model",
+        "finish, recover, argument capture and events are outside this model; the location filter -L is in the model and in "
+        "the specification sel2 (theorems quantify over it) but its tie is end-to-end only (generated programs whose "
+        "functions carry #line source locations; the in-process harness functions have no DWARF)",
         "refinement to the documented semantics is proved for -F/-N/-C/-D/-t and the trigger actions filter/notrace/"
         "depth=(>0)/time=/size=/trace (specifications sel, sel2, both instrumentation shapes); "
-        "trace_on/trace_off, finish, -L and depth=0 are tied by correspondence + the restoration and embedded-sub-history "
+        "trace_on/trace_off, finish and depth=0 are tied by correspondence + the restoration and embedded-sub-history "
         "theorems only",
         "theorems quantify over complete call forests within --max-stack and clock readings < 2^64 that do not go "
         "backwards inside a call; end times are non-zero (libmcount uses 0 for 'still running')",
